@@ -284,3 +284,246 @@ Theorem refutations_outside :
          TrackerInc2.a2_ds = false.
 Proof. exact TrackerInc2.refutations_outside. Qed.
 Print Assumptions refutations_outside.
+
+(* ---- TrackerInc2b ---- *)
+From CiwV.Inv Require TrackerInc2b.
+
+Theorem scope_nb_int :
+  forall cf : State2.config,
+       TrackerInc2b.scope_nb cf = true -> TrackerInc2.scope_int cf = true.
+Proof. exact TrackerInc2b.scope_nb_int. Qed.
+Print Assumptions scope_nb_int.
+
+Theorem event_step_naive_blocking2 :
+  forall (cf : State2.config) (s s' : State2.sim),
+       TrackerInc2b.scope_nb cf = true ->
+       TrackerInc2b.Inv2 cf s ->
+       Engine2.event_step cf s = State2.Ok (tt, s') ->
+       TrackerInc2b.Inv2 cf s' /\
+       TrackerInc2.orun TrackerInc2.nb_step
+         (TrackerInc2.calls_event_step cf s) (TrackerInc2.nb_true s) =
+       Some (TrackerInc2.nb_true s').
+Proof. exact TrackerInc2b.event_step_naive_blocking2. Qed.
+Print Assumptions event_step_naive_blocking2.
+
+Theorem run_many_naive_blocking2 :
+  forall cf : State2.config,
+       TrackerInc2b.scope_nb cf = true ->
+       forall (ds : list State2.draws) (s s' : State2.sim),
+       TrackerInc2b.Inv2 cf s ->
+       Codec2.run_many cf s ds = State2.Ok s' ->
+       TrackerInc2b.Inv2 cf s' /\
+       TrackerInc2.orun TrackerInc2.nb_step (TrackerInc2.calls_many cf s ds)
+         (TrackerInc2.nb_true s) = Some (TrackerInc2.nb_true s').
+Proof. exact TrackerInc2b.run_many_naive_blocking2. Qed.
+Print Assumptions run_many_naive_blocking2.
+
+Theorem naive_blocking_never_negative :
+  forall (cf : State2.config) (ds : list State2.draws)
+         (s s' : State2.sim),
+       TrackerInc2b.scope_nb cf = true ->
+       TrackerInc2b.Inv2 cf s ->
+       Codec2.run_many cf s ds = State2.Ok s' ->
+       exists m : list (list BinNums.Z),
+         TrackerInc2.orun TrackerInc2.nb_step
+           (TrackerInc2.calls_many cf s ds) (TrackerInc2.nb_true s) = 
+         Some m /\
+         List.Forall
+           (List.Forall (fun z : BinNums.Z => BinInt.Z.le BinNums.Z0 z)) m.
+Proof. exact TrackerInc2b.naive_blocking_never_negative. Qed.
+Print Assumptions naive_blocking_never_negative.
+
+Theorem inv2_b_sound :
+  forall (cf : State2.config) (an : BinNums.Z -> option BinNums.Z)
+         (h : list State2.rec) (s : State2.sim),
+       TrackerInc2b.inv2_b cf an h s = true -> TrackerInc2b.Inv2 cf s.
+Proof. exact TrackerInc2b.inv2_b_sound. Qed.
+Print Assumptions inv2_b_sound.
+
+Theorem class_matrix_means :
+  forall (cf : State2.config) (k : nat) (s : State2.sim)
+         (j c : BinNums.Z),
+       TrackerInc2b.InvB cf s ->
+       BinInt.Z.le BinNums.Z0 c /\ BinInt.Z.lt c (BinInt.Z.of_nat k) ->
+       Engine2.nthZ (State2.nodes s)
+         (BinInt.Z.sub j (BinNums.Zpos BinNums.xH)) <> None ->
+       TrackerInc2b.entry (TrackerInc2.cm_true k s) j c =
+       TrackerInc2b.cntc c s j.
+Proof. exact TrackerInc2b.class_matrix_means. Qed.
+Print Assumptions class_matrix_means.
+
+Theorem event_step_tinvs2 :
+  forall (cf : State2.config) (s s' : State2.sim),
+       TrackerInc2b.scope_nb cf = true ->
+       TrackerInc2b.Inv2 cf s ->
+       TrackerInc2b.CandQ1 s ->
+       TrackerInc2b.TInvS s ->
+       Engine2.event_step cf s = State2.Ok (tt, s') -> TrackerInc2b.TInvS s'.
+Proof. exact TrackerInc2b.event_step_tinvs2. Qed.
+Print Assumptions event_step_tinvs2.
+
+Theorem event_step_class_matrix2 :
+  forall (cf : State2.config) (s s' : State2.sim),
+       TrackerInc2b.scope_nb cf = true ->
+       State2.cf_dyn cf = false ->
+       TrackerInc2b.InvB cf s ->
+       Engine2.event_step cf s = State2.Ok (tt, s') ->
+       TrackerInc2b.InvB cf s' /\
+       (forall c j : BinNums.Z,
+        BinInt.Z.sub (TrackerInc2b.cntc c s' j)
+          (TrackerInc2b.netc c j (TrackerInc2.calls_event_step cf s)) =
+        TrackerInc2b.cntc c s j).
+Proof. exact TrackerInc2b.event_step_class_matrix2. Qed.
+Print Assumptions event_step_class_matrix2.
+
+Theorem run_many_class_matrix2 :
+  forall (cf : State2.config) (ds : list State2.draws)
+         (s s' : State2.sim),
+       TrackerInc2b.scope_nb cf = true ->
+       State2.cf_dyn cf = false ->
+       TrackerInc2b.InvB cf s ->
+       Codec2.run_many cf s ds = State2.Ok s' ->
+       TrackerInc2b.InvB cf s' /\
+       (forall c j : BinNums.Z,
+        BinInt.Z.sub (TrackerInc2b.cntc c s' j)
+          (TrackerInc2b.netc c j (TrackerInc2.calls_many cf s ds)) =
+        TrackerInc2b.cntc c s j) /\
+       (forall m0 m' : list (list BinNums.Z),
+        TrackerInc2.orun TrackerInc2.cm_step (TrackerInc2.calls_many cf s ds)
+          m0 = Some m' ->
+        forall j c : BinNums.Z,
+        TrackerInc2b.entry m0 j c = TrackerInc2b.cntc c s j ->
+        TrackerInc2b.entry m' j c = TrackerInc2b.cntc c s' j).
+Proof. exact TrackerInc2b.run_many_class_matrix2. Qed.
+Print Assumptions run_many_class_matrix2.
+
+Theorem event_step_class_matrix2_partial :
+  forall (cf : State2.config) (s s' : State2.sim),
+       TrackerInc2b.scope_nb cf = true ->
+       TrackerInc2b.InvB cf s ->
+       TrackerInc2b.CandQ1 s ->
+       Engine2.event_step cf s = State2.Ok (tt, s') ->
+       TrackerInc2b.InvB cf s' /\
+       (forall c j : BinNums.Z,
+        BinInt.Z.sub (TrackerInc2b.cntc c s' j)
+          (TrackerInc2b.netc c j (TrackerInc2.calls_event_step cf s)) =
+        TrackerInc2b.cntc c s j).
+Proof. exact TrackerInc2b.event_step_class_matrix2_partial. Qed.
+Print Assumptions event_step_class_matrix2_partial.
+
+Theorem run_many_class_matrix2_partial :
+  forall cf : State2.config,
+       TrackerInc2b.scope_nb cf = true ->
+       forall (ds : list State2.draws) (s s' : State2.sim),
+       TrackerInc2b.InvB cf s ->
+       TrackerInc2b.CandQ1_run cf s ds ->
+       Codec2.run_many cf s ds = State2.Ok s' ->
+       TrackerInc2b.InvB cf s' /\
+       (forall c j : BinNums.Z,
+        BinInt.Z.sub (TrackerInc2b.cntc c s' j)
+          (TrackerInc2b.netc c j (TrackerInc2.calls_many cf s ds)) =
+        TrackerInc2b.cntc c s j) /\
+       (forall m0 m' : list (list BinNums.Z),
+        TrackerInc2.orun TrackerInc2.cm_step (TrackerInc2.calls_many cf s ds)
+          m0 = Some m' ->
+        forall j c : BinNums.Z,
+        TrackerInc2b.entry m0 j c = TrackerInc2b.cntc c s j ->
+        TrackerInc2b.entry m' j c = TrackerInc2b.cntc c s' j).
+Proof. exact TrackerInc2b.run_many_class_matrix2_partial. Qed.
+Print Assumptions run_many_class_matrix2_partial.
+
+Theorem invb_b_sound :
+  forall (cf : State2.config) (an : BinNums.Z -> option BinNums.Z)
+         (h : list State2.rec) (s : State2.sim),
+       TrackerInc2b.invb_b cf an h s = true -> TrackerInc2b.InvB cf s.
+Proof. exact TrackerInc2b.invb_b_sound. Qed.
+Print Assumptions invb_b_sound.
+
+Theorem class_matrix_refuted_F02b :
+  exists
+         (cf : State2.config) (s0 : State2.sim) (ds : list State2.draws) 
+       (s10 : State2.sim),
+         Conserve2.wfx2_b s0 = true /\
+         TrackerInc2b.tinvs_b s0 = true /\
+         TrackerInc2.scope_int cf = false /\
+         Codec2.run_many cf s0 ds = State2.Ok s10 /\
+         TrackerInc2.calls_many cf s0 ds =
+         (TrackerInc2.Acc (BinNums.Zpos BinNums.xH) BinNums.Z0
+          :: TrackerInc2.Acc (BinNums.Zpos BinNums.xH) BinNums.Z0
+             :: TrackerInc2.Rel (BinNums.Zpos BinNums.xH)
+                  (BinNums.Zpos (BinNums.xO BinNums.xH))
+                  (BinNums.Zpos BinNums.xH) BinNums.Z0 false
+                :: TrackerInc2.Acc (BinNums.Zpos (BinNums.xO BinNums.xH))
+                     (BinNums.Zpos BinNums.xH)
+                   :: TrackerInc2.Acc (BinNums.Zpos BinNums.xH) BinNums.Z0
+                      :: TrackerInc2.Blk (BinNums.Zpos BinNums.xH)
+                           (BinNums.Zpos (BinNums.xO BinNums.xH))
+                           (BinNums.Zpos (BinNums.xI BinNums.xH)) BinNums.Z0
+                         :: TrackerInc2.Blk (BinNums.Zpos BinNums.xH)
+                              (BinNums.Zpos (BinNums.xO BinNums.xH))
+                              (BinNums.Zpos (BinNums.xO BinNums.xH))
+                              BinNums.Z0
+                            :: TrackerInc2.Blk (BinNums.Zpos BinNums.xH)
+                                 (BinNums.Zpos (BinNums.xO BinNums.xH))
+                                 (BinNums.Zpos (BinNums.xO BinNums.xH))
+                                 (BinNums.Zpos BinNums.xH)
+                               :: TrackerInc2.Blk 
+                                    (BinNums.Zpos BinNums.xH)
+                                    (BinNums.Zpos (BinNums.xO BinNums.xH))
+                                    (BinNums.Zpos (BinNums.xO BinNums.xH))
+                                    (BinNums.Zpos BinNums.xH)
+                                  :: TrackerInc2.Blk
+                                       (BinNums.Zpos BinNums.xH)
+                                       (BinNums.Zpos (BinNums.xO BinNums.xH))
+                                       (BinNums.Zpos (BinNums.xI BinNums.xH))
+                                       (BinNums.Zpos BinNums.xH) :: nil)%list /\
+         TrackerInc2.cm_true 2 s10 =
+         ((BinNums.Z0 :: BinNums.Zpos (BinNums.xO BinNums.xH) :: nil)
+          :: (BinNums.Z0 :: BinNums.Zpos BinNums.xH :: nil) :: nil)%list /\
+         TrackerInc2.orun TrackerInc2.cm_step
+           (TrackerInc2.calls_many cf s0 ds) (TrackerInc2.cm_true 2 s0) =
+         Some
+           ((BinNums.Zpos (BinNums.xO BinNums.xH) :: BinNums.Z0 :: nil)
+            :: (BinNums.Z0 :: BinNums.Zpos BinNums.xH :: nil) :: nil)%list /\
+         TrackerInc2.Tracked1 (TrackerInc2.calls_many cf s0 ds) s0 s10.
+Proof. exact TrackerInc2b.class_matrix_refuted_F02b. Qed.
+Print Assumptions class_matrix_refuted_F02b.
+
+Theorem nb_refutations_outside :
+  TrackerInc2b.scope_nb TrackerInc2.r4_cf = false /\
+       TrackerInc2b.scope_nb TrackerInc2.a2_cf = false /\
+       TrackerInc2b.scope_nb TrackerInc2.a3_cf = false /\
+       TrackerInc2b.scope_nb TrackerInc2.tk_cf = true /\
+       TrackerInc2b.scope_nb TrackerInc2.b2_cf = true.
+Proof. exact TrackerInc2b.nb_refutations_outside. Qed.
+Print Assumptions nb_refutations_outside.
+
+Theorem nb_run60 :
+  exists s' : State2.sim,
+         Codec2.run_many TrackerInc2b.nb_cf TrackerInc2b.nb_s0
+           (List.repeat TrackerInc2b.nb_d 60) = State2.Ok s' /\
+         TrackerInc2.orun TrackerInc2.nb_step
+           (TrackerInc2.calls_many TrackerInc2b.nb_cf TrackerInc2b.nb_s0
+              (List.repeat TrackerInc2b.nb_d 60))
+           (TrackerInc2.nb_true TrackerInc2b.nb_s0) =
+         Some (TrackerInc2.nb_true s').
+Proof. exact TrackerInc2b.nb_run60. Qed.
+Print Assumptions nb_run60.
+
+Theorem cm_run60 :
+  exists (s' : State2.sim) (m' : list (list BinNums.Z)),
+         Codec2.run_many TrackerInc2b.cm_cf TrackerInc2b.cm_s0
+           (List.repeat TrackerInc2b.cm_d 60) = State2.Ok s' /\
+         TrackerInc2.orun TrackerInc2.cm_step
+           (TrackerInc2.calls_many TrackerInc2b.cm_cf TrackerInc2b.cm_s0
+              (List.repeat TrackerInc2b.cm_d 60))
+           (TrackerInc2.cm_true 2 TrackerInc2b.cm_s0) = 
+         Some m' /\
+         (forall j c : BinNums.Z,
+          BinInt.Z.le (BinNums.Zpos BinNums.xH) j /\
+          BinInt.Z.le j (BinNums.Zpos (BinNums.xI BinNums.xH)) ->
+          BinInt.Z.le BinNums.Z0 c /\
+          BinInt.Z.lt c (BinNums.Zpos (BinNums.xO BinNums.xH)) ->
+          TrackerInc2b.entry m' j c = TrackerInc2b.cntc c s' j).
+Proof. exact TrackerInc2b.cm_run60. Qed.
+Print Assumptions cm_run60.
